@@ -726,6 +726,10 @@ func c15History(p *Prog, r *Report, rule string) {
 		}
 		r.Ob("start:same-convention", pos, same, "field capacity below the table at the start and after a level change: "+det)
 	}
+	if strings.HasPrefix(rule, "C15.") {
+		c15Recompute(p, r)
+		c15RecomputeRest(p, r)
+	}
 	// the texture-table route reads its row on every call: the loop that assigns the table values is entered
 	// unconditionally (some parameters are afterwards corrected in place, e.g. pore volume += humus term: a call
 	// that skips the lookup corrects the already corrected value of the previous call)
